@@ -1,9 +1,175 @@
+/-
+  C33 — Data sampling marks a block sampled only after full success.
+
+  Property theorems over the worker model `Lumina.Model.Daser` (transcription of
+  `/repo/node/src/daser.rs`), for ALL states reachable by ANY history of stimuli (network answers —
+  success or timeout — to any pending request in any order, store inserts and removals, peer-count
+  changes, pruner commands) and ANY raw draws of the random number generator.  The property is the
+  monitor `Lumina.Spec.C33`; `view33` is what the monitor sees of a state.
+  Lemmas: `Lumina/Proofs/Daser.lean`, `Lumina/Proofs/DaserIndexes.lean`.
+-/
 import Lumina.Gen.C33
-import Lumina.Model.DaserView
+import Lumina.Proofs.Daser
 
 namespace Lumina.Props.C33
+open Lumina.Model.Daser Lumina.Proofs.Daser Lumina.Proofs.DaserIndexes
+open Lumina.Spec.C33
 
 /-- at most 16 shares are sampled per block, the number the property states -/
 theorem max_samples_is_16 : Lumina.Gen.C33.MAX_SAMPLES_NEEDED = 16 := by decide
+
+/-- (used by the shared invariant; the number itself is C34's subject) -/
+theorem pruner_threshold_is_512 : Lumina.Gen.C33.PRUNER_THRESHOLD = 512 := by decide
+
+/-- a freshly created worker (any limits, any header chain) satisfies the invariant -/
+theorem init_ok (limit extra : Nat) (hdr : Nat → Hdr) :
+    StateOK (init { limit := limit, extra := extra, maxSamples := Lumina.Gen.C33.MAX_SAMPLES_NEEDED,
+                    prunerThreshold := Lumina.Gen.C33.PRUNER_THRESHOLD } hdr) :=
+  ⟨inv_init _ _, pruner_threshold_is_512, max_samples_is_16⟩
+
+/-! ### `random_indexes`, every width -/
+
+/-- whatever the generator draws: if `random_indexes(w, 16)` returns, the indexes are pairwise distinct,
+    inside the `w × w` square, and there are exactly `min (w², 16)` of them -/
+theorem random_indexes_ok (w : Nat) (draws : List (Nat × Nat)) (out : List Share)
+    (h : randomIndexes w Lumina.Gen.C33.MAX_SAMPLES_NEEDED draws = some out) :
+    out.Nodup ∧ (∀ p ∈ out, p.1 < w ∧ p.2 < w) ∧ out.length = min (w * w) 16 :=
+  randomIndexes_spec w 16 draws out h
+
+/-- squares with at most 16 cells are sampled completely, without randomness -/
+theorem random_indexes_whole_square (w : Nat) (draws : List (Nat × Nat)) (h : w * w ≤ 16) :
+    randomIndexes w Lumina.Gen.C33.MAX_SAMPLES_NEEDED draws = some (fullGrid w) ∧
+    ∀ p, p ∈ fullGrid w ↔ p.1 < w ∧ p.2 < w :=
+  ⟨randomIndexes_small w 16 draws h, mem_fullGrid w⟩
+
+/-- the `while indexes.len() < 16` loop can always exit: for every wider square there are draws on which
+    it terminates (the size argument: `w² > 16` distinct cells exist, each iteration adds at most one) -/
+theorem random_indexes_can_exit (w : Nat) (h : 16 < w * w) :
+    ∃ draws, (randomIndexes w Lumina.Gen.C33.MAX_SAMPLES_NEEDED draws).isSome = true :=
+  randomIndexes_can_exit w 16 h
+
+/-! ### the worker -/
+
+/-- **one stimulus.**  From any state satisfying the invariant, for any stimulus with `u64` arguments and
+    any raw draws: the invariant holds afterwards and the C33 monitor accepts every action of the worker:
+    every `mark_as_sampled` directly follows a `SamplingResult` without timeout of a block with nothing
+    pending; every request is for a share already recorded in the block's sampling metadata; the chosen
+    shares are distinct, in-square and `min (w², 16)` many. -/
+theorem step_accepted (s : State) (ev : Ev) (rnd : List (List (Nat × Nat))) (hs : StateOK s) (hwf : EvWF ev) :
+    specOK (view33 s) ev (step s ev rnd).2 = true ∧ StateOK (step s ev rnd).1 :=
+  ⟨(step_ok hs ev hwf rnd).2.2, (step_ok hs ev hwf rnd).1⟩
+
+/-- **every history**, in whatever order the network answers and whatever else happens meanwhile -/
+theorem history_accepted (limit extra : Nat) (hdr : Nat → Hdr)
+    (evs : List (Ev × List (List (Nat × Nat)))) (hwf : ∀ e ∈ evs, EvWF e.1) :
+    accepts33 (init { limit := limit, extra := extra, maxSamples := Lumina.Gen.C33.MAX_SAMPLES_NEEDED,
+                      prunerThreshold := Lumina.Gen.C33.PRUNER_THRESHOLD } hdr) evs = true :=
+  (run_ok evs _ (init_ok limit extra hdr) hwf).2.1
+
+/-! ### what acceptance by the monitor means, action by action -/
+
+/-- `sharesOK`, spelled out -/
+theorem sharesOK_spelled_out (w : Nat) (shares : List Share) (h : sharesOK w shares = true) :
+    shares.Nodup ∧ (∀ p ∈ shares, p.1 < w ∧ p.2 < w) ∧ shares.length = min (w * w) 16 := by
+  simp only [sharesOK, Bool.and_eq_true, decide_eq_true_eq, List.all_eq_true, beq_iff_eq] at h
+  exact ⟨h.1.1, h.1.2, h.2⟩
+
+/-- an accepted `mark_as_sampled(h)`: block `h` is the one that has just finished with every share retrieved -/
+theorem accepted_mark (v : View) (h : Nat) (ts : List Tok) (hacc : (walk v (Tok.mark h :: ts)).isSome = true) :
+    v.justOk = some h := by
+  simp only [walk, onTok] at hacc
+  by_cases hj : v.justOk = some h
+  · exact hj
+  · have : (v.justOk == some h) = false := by simpa using hj
+    simp [this] at hacc
+
+/-- an accepted `SamplingResult(h, timed_out)`: nothing of block `h` is pending, and `timed_out` says
+    whether some share timed out; only a result without timeout arms `mark_as_sampled` -/
+theorem accepted_result (v : View) (h : Nat) (to : Bool) (ts : List Tok)
+    (hacc : (walk v (Tok.result h to :: ts)).isSome = true) :
+    ∃ b, findBlk v h = some b ∧ b.pending = [] ∧ b.anyTimeout = to := by
+  simp only [walk, onTok] at hacc
+  cases hb : findBlk v h with
+  | none => rw [hb] at hacc; simp at hacc
+  | some b =>
+    rw [hb] at hacc
+    refine ⟨b, rfl, ?_⟩
+    by_cases hc : (b.pending.isEmpty && to == b.anyTimeout) = true
+    · simp only [Bool.and_eq_true, List.isEmpty_iff, beq_iff_eq] at hc
+      exact ⟨hc.1, hc.2.symm⟩
+    · simp [hc] at hacc
+
+/-- accepted requests of block `h`: exactly the chosen shares, each already recorded in `h`'s sampling metadata -/
+theorem accepted_requests (v : View) (h : Nat) (shares : List Share) (ts : List Tok)
+    (hacc : (walk v (Tok.req h shares :: ts)).isSome = true) :
+    ∃ b, findBlk v h = some b ∧ sameSet shares b.chosen = true ∧ shares.Nodup ∧ ∀ p ∈ shares, p ∈ v.recorded h := by
+  simp only [walk, onTok] at hacc
+  cases hb : findBlk v h with
+  | none => rw [hb] at hacc; simp at hacc
+  | some b =>
+    rw [hb] at hacc
+    refine ⟨b, rfl, ?_⟩
+    dsimp only at hacc
+    split at hacc
+    · simp at hacc
+    · rename_i v' heq
+      split at heq
+      · rename_i hc
+        simp only [Bool.and_eq_true, decide_eq_true_eq, List.all_eq_true, List.contains_iff_mem] at hc
+        exact ⟨hc.1.1, hc.1.2, hc.2⟩
+      · simp at heq
+
+/-- an accepted `update_sampling_metadata(h, cids)`: the chosen shares are distinct, inside the square of
+    `h`'s header and `min (w², 16)` many, and `h` is not already being sampled -/
+theorem accepted_choice (v : View) (h : Nat) (cids : List Share) (ts : List Tok)
+    (hacc : (walk v (Tok.metaUpd h cids :: ts)).isSome = true) :
+    sharesOK (v.width h) cids = true ∧ findBlk v h = none := by
+  simp only [walk, onTok] at hacc
+  by_cases hc : (sharesOK (v.width h) cids && (findBlk v h).isNone) = true
+  · simp only [Bool.and_eq_true, Option.isNone_iff_eq_none] at hc
+    exact hc
+  · simp [hc] at hacc
+
+/-! ### non-vacuity: concrete histories -/
+
+def cfg0 : Cfg := { limit := 2, extra := 0, maxSamples := Lumina.Gen.C33.MAX_SAMPLES_NEEDED,
+                    prunerThreshold := Lumina.Gen.C33.PRUNER_THRESHOLD }
+/-- heights 1, 2: width 2 (whole square sampled); height 3: width 5 (16 of 25 cells) -/
+def hdr0 : Nat → Hdr := fun h => { width := if h = 3 then 5 else 2, fresh := true }
+def s0 : State := init cfg0 hdr0
+def g2 : List Share := [(0,0),(0,1),(1,0),(1,1)]
+/-- raw draws for the 5 × 5 block: a repeated cell and out-of-range values are reduced mod 5 and deduplicated -/
+def draws3 : List (Nat × Nat) :=
+  [(0,0),(5,5),(0,1),(0,2),(0,3),(0,4),(1,0),(1,1),(1,2),(1,3),(1,4),(2,0),(2,1),(2,2),(2,3),(7,4),(3,0),(9,9)]
+def sel3 : List Share :=
+  [(0,0),(0,1),(0,2),(0,3),(0,4),(1,0),(1,1),(1,2),(1,3),(1,4),(2,0),(2,1),(2,2),(2,3),(2,4),(3,0)]
+
+example : randomIndexes 5 16 draws3 = some sel3 := by decide
+
+/-- blocks 3 and 2 are started; 2 is answered completely and successfully → marked; one share of 3 times out,
+    the other 15 succeed → `SamplingResult(3, timed_out)` and no mark -/
+def h1 : List (Ev × List (List (Nat × Nat))) :=
+  [(.insert 1 3, []), (.peers 1, [draws3, []]),
+   (.answer 2 (0,0) false, []), (.answer 2 (1,1) false, []), (.answer 2 (0,1) false, []), (.answer 2 (1,0) false, [[]])] ++
+  (sel3.map (fun p => (Ev.answer 3 p (p == (1,3)), ([[]] : List (List (Nat × Nat))))))
+
+set_option maxRecDepth 100000 in
+example : (run s0 h1).2.take 6 =
+    [[], [Tok.scan, Tok.metaUpd 3 sel3, Tok.metaUpd 2 g2, Tok.started 3 5 sel3, Tok.started 2 2 g2, Tok.req 3 sel3, Tok.req 2 g2],
+     [Tok.share 2 (0,0) false], [Tok.share 2 (1,1) false], [Tok.share 2 (0,1) false],
+     [Tok.share 2 (1,0) false, Tok.result 2 false, Tok.mark 2, Tok.metaUpd 1 g2, Tok.started 1 2 g2, Tok.req 1 g2]] := by decide
+
+set_option maxRecDepth 100000 in
+example : ((run s0 h1).2.getLast?) = some [Tok.share 3 (3,0) false, Tok.result 3 true] := by decide
+
+set_option maxRecDepth 100000 in
+example : accepts33 s0 h1 = true := by decide
+
+/-- the monitor is not trivially accepting: a mark without a preceding successful result, a request for an
+    unrecorded share, and a choice with a repeated share are all rejected -/
+example : specOK (view33 (run s0 (h1.take 3)).1) (.answer 2 (1,1) false) [Tok.share 2 (1,1) false, Tok.mark 2] = false := by decide
+example : specOK (view33 (run s0 (h1.take 2)).1) (.peers 1) [Tok.req 2 [(0,0),(0,1),(1,0),(4,4)]] = false := by decide
+example : specOK (view33 s0) (.peers 1) [Tok.metaUpd 2 [(0,0),(0,0),(1,0),(1,1)]] = false := by decide
+example : specOK (view33 s0) (.peers 1) [Tok.metaUpd 3 g2] = false := by decide
 
 end Lumina.Props.C33
